@@ -113,8 +113,9 @@ Inductive cref := Sent (m k : Z) | Forged (sq rid cid : Z).
 
 Inductive op :=
 | CSend (n : Z)            (* client: next_request_id, then SendBuffer::write of an n-chunk message *)
-| SSend (rid big : Z)      (* server: MessageWriter::write(rid, ..): always one chunk; big = 1: the
-                              chunk does not fit the writer's buffer, apply_security fails *)
+| SSend (rid big : Z)      (* server: MessageWriter::write(rid, ..) of a one-chunk message, or (big = 1) of a
+                              message of twice the chunk body room: the writer chunks with the negotiated
+                              send buffer size, so that one takes two chunks *)
 | Recv (l : list cref).    (* present these chunks as one message to the receiver *)
 
 Record case := mk_case {
@@ -179,6 +180,9 @@ Definition upd_recv (s : st) (last : Z) (acc : list (list chunk)) : st :=
      cl_ids := cl_ids s; accepted := accepted s ++ acc |}.
 
 (* one operation: the observation and the next state (None: panic, the run ends) *)
+(* chunks of the message an SSend writes *)
+Definition ssize (big : Z) : Z := if big =? 1 then 2 else 1.
+
 Definition step (c : case) (s : st) (o : op) : obs * option st :=
   match o with
   | CSend n =>
@@ -192,13 +196,10 @@ Definition step (c : case) (s : st) (o : op) : obs * option st :=
            end
   | SSend rid big =>
       if negb (sv_alive s) then (ODead, Some s)
-      else match write (sv_seq s) (c_maxchunks c) 1 rid (c_schan c) with
+      else match write (sv_seq s) (c_maxchunks c) (ssize big) rid (c_schan c) with
            | (SPanic, _) => (OPanic, None)
            | (SErr, sq) => (OErr rid, Some (upd_server s sq false []))
-           | (SOk msg, sq) =>
-               (* the counter is advanced before apply_security can fail *)
-               if big =? 1 then (OErr rid, Some (upd_server s sq false []))
-               else (OSent rid (hdrs msg), Some (upd_server s sq true msg))
+           | (SOk msg, sq) => (OSent rid (hdrs msg), Some (upd_server s sq true msg))
            end
   | Recv l =>
       match resolve (sent s) l with
@@ -357,8 +358,8 @@ Fixpoint oracle_from (c : case) (g : led) (ops : list op) (os : list obs) : bool
       | CSend n, OPanic =>
           ((U32MAX <? g_cnext g + Z.max 1 n - 1) || (U32MAX <? g_maxid g + 1))
           && match os' with [] => true | _ => false end
-      | SSend _ _, OPanic =>
-          (U32MAX <? g_snext g) && match os' with [] => true | _ => false end
+      | SSend _ big, OPanic =>
+          (U32MAX <? g_snext g + ssize big - 1) && match os' with [] => true | _ => false end
       | Recv l, ORecv c1 l1 c2 l2 =>
           match resolve (g_tbl g) l with
           | [] => (c1 =? -1) && (l1 =? -1) && (c2 =? -1) && (l2 =? -1) && oracle_from c g ops' os'
